@@ -254,11 +254,38 @@ func InstrDominates(a, b ssa.Instruction) bool {
 	return a.Block().Dominates(b.Block())
 }
 
-// Returns lists the return instructions of f.
+// RetResults returns the values a return instruction returns, seeing through
+// the spill go/ssa introduces in functions with defer statements
+// (`*res = v; rundefers; t = *res; return t`).
+func RetResults(ret *ssa.Return) []ssa.Value {
+	out := make([]ssa.Value, len(ret.Results))
+	for i, v := range ret.Results {
+		out[i] = v
+		ld, ok := v.(*ssa.UnOp)
+		if !ok || ld.Op != token.MUL {
+			continue
+		}
+		al, ok := ld.X.(*ssa.Alloc)
+		if !ok {
+			continue
+		}
+		b := ret.Block()
+		for j := len(b.Instrs) - 1; j >= 0; j-- {
+			if st, ok := b.Instrs[j].(*ssa.Store); ok && st.Addr == ssa.Value(al) {
+				out[i] = st.Val
+				break
+			}
+		}
+	}
+	return out
+}
+
+// Returns lists the return instructions of f (the synthetic recover block of a
+// function with defers is not a return of the source program and is skipped).
 func Returns(f *ssa.Function) []*ssa.Return {
 	var out []*ssa.Return
 	for _, b := range f.Blocks {
-		if len(b.Instrs) == 0 {
+		if len(b.Instrs) == 0 || b == f.Recover {
 			continue
 		}
 		if r, ok := b.Instrs[len(b.Instrs)-1].(*ssa.Return); ok {
